@@ -26,7 +26,19 @@ for k in sorted(SSE_MAIN + SSE_PRIME):
         HARNESSES.append(('sse_f32_butterfly%d_parallel' % k, ['C03', 'C07', 'C09', 'C15'], 'thorough', 'complete', 'sse'))
     HARNESSES.append(('sse_f64_butterfly%d_single' % k, ['C03', 'C09', 'C15'], 'thorough', 'complete', 'sse'))
 
+AVX_ACCESSORS = ['avx_f32_load_complex', 'avx_f32_load_partial1', 'avx_f32_load_partial2', 'avx_f32_load_partial3', 'avx_f64_load_complex', 'avx_f64_load_partial1',
+                 'avx_f32_store_complex', 'avx_f32_store_partial1', 'avx_f32_store_partial2', 'avx_f32_store_partial3', 'avx_f64_store_complex', 'avx_f64_store_partial1']
+for h in AVX_ACCESSORS:
+    # small loop-free harnesses (seconds): run in the quick tier; they discharge the accessor contracts the Verus AVX units assume
+    HARNESSES.append((h, ['C03'], 'quick', 'complete', 'avxvec'))
+
+SSE_ACCESSORS = ['sse_f32_load_complex', 'sse_f32_load_partial_lo', 'sse_f32_load1', 'sse_f64_load_complex', 'sse_f32_store_complex', 'sse_f32_store_partial_lo', 'sse_f64_store_complex']
+for h in SSE_ACCESSORS:
+    HARNESSES.append((h, ['C03'], 'quick', 'complete', 'ssevec'))
+
 GROUP_FLAGS = {
+    'avxvec': ['--features', 'avx'],
+    'ssevec': ['--features', 'sse'],
     'sse': ['--features', 'sse', '--no-overflow-checks', '-Z', 'stubbing'],
     'default': [],
     # CBMC's float NaN/overflow checks are not properties of RustFFT (every input may be NaN or infinite); MIR-level integer
@@ -34,10 +46,12 @@ GROUP_FLAGS = {
     'nofloatchecks': ['--no-overflow-checks'],
 }
 SPURIOUS = {}  # none: the float SIMD arithmetic intrinsics are stubbed lane-wise (kani/sse_macros.rs), so no check is ignored
-GROUP_TARGET = {'sse': 'kani-target-sse'}
+GROUP_TARGET = {'sse': 'kani-target-sse', 'avxvec': 'kani-target-avx', 'ssevec': 'kani-target-ssevec'}
 # parallel CBMC jobs per group: the large f64 scalar kernels need ~20 GB each
-GROUP_JOBS = {'default': 3, 'nofloatchecks': 2, 'sse': 3}
+GROUP_JOBS = {'default': 3, 'nofloatchecks': 2, 'sse': 3, 'avxvec': 6, 'ssevec': 6}
 ASSUME = {
+    'ssevec': 'Kani/CBMC on the SSE load/store intrinsics as implemented in stdarch; all element bit patterns; loop-free (complete for this accessor): each SseArray[Mut] accessor, called as its debug_assert allows, dereferences nothing outside [index, index + k) and leaves both neighbours of the stored range bit-identical',
+    'avxvec': 'Kani/CBMC on the AVX load/store intrinsics as implemented in stdarch (copy_nonoverlapping / simd_shuffle / pointer reads and writes); all element bit patterns; loop-free (complete for this accessor): each AvxArray[Mut] accessor, called as its debug_assert allows (index + k <= len, exercised with len == k and with the last k elements of a longer buffer), dereferences nothing outside [index, index + k)',
     'sse': 'Kani/CBMC on the SSE intrinsics as lowered to generic simd_* operations; all element bit patterns and both directions, constant loops fully unwound (complete for this kernel); float NaN/overflow checks off; the eight float arithmetic intrinsics (_mm_add/sub/mul/addsub_ps/pd) are stubbed lane-wise because the assert-and-assume "no overflow" on float simd_add/sub/mul would make all later code unreachable (vacuity found by a mutation test); is_x86_feature_detected is not reached (kernels are called directly, as the verified helpers call them)',
     'default': 'Kani/CBMC bit-precise float model; loop-free over all bit patterns (complete)',
     'nofloatchecks': 'Kani/CBMC; all element bit patterns and both directions, constant loops fully unwound with unwinding assertions (complete for this kernel and element type); CBMC float NaN/overflow checks off (not a property); sin/cos in compute_twiddle over-approximated (values irrelevant to memory safety)',
@@ -177,7 +191,7 @@ def result_of(h, grp, pr, wall, shown):
     name, props, t, kind, _ = h
     r = {'harness': name, 'kind': kind, 'wall_s': wall, 'obligations': 1, 'cmd': shown, 'assumptions': [ASSUME[grp]]}
     ok, failed, cover = (pr[0], pr[1], pr[2]) if pr else (None, [], None)
-    needs_cover = grp in ('nofloatchecks', 'sse')
+    needs_cover = grp in ('nofloatchecks', 'sse', 'avxvec', 'ssevec')
     if ok is True and needs_cover and (cover is None or cover[0] != cover[1] or cover[1] == 0):
         r.update(status='inconclusive', discharged=0, reason='VACUITY: the end of the harness is not reachable (cover %s)' % (cover,))
     elif ok is True:
